@@ -48,12 +48,13 @@ type Run struct {
 	rule        string
 	exhaustive  *bool
 
-	findings      []finding
-	knownSeen     map[string]string
-	violations    []string // keys
-	violationSeen map[string]int
-	inconclusive  []string
-	replayN       int
+	findings         []finding
+	knownSeen        map[string]string
+	violations       []string // keys
+	violationSeen    map[string]int
+	inconclusive     []string
+	hardInconclusive []string // worker deaths that cannot be attributed to the system under test: the run exits 2
+	replayN          int
 
 	shardViolations []partialViolation
 	isShard         bool
@@ -321,6 +322,7 @@ func (r *Run) Finish(minNonTrivial int) {
 	nviol := len(r.violations)
 	nnt := len(r.nontrivial)
 	inconcl := append([]string(nil), r.inconclusive...)
+	hard := append([]string(nil), r.hardInconclusive...)
 	r.mu.Unlock()
 
 	if os.Getenv("VERIF_NO_EVIDENCE") == "" {
@@ -350,6 +352,15 @@ func (r *Run) Finish(minNonTrivial int) {
 	runCleanups()
 	if nviol > 0 {
 		os.Exit(1)
+	}
+	if len(hard) > 0 {
+		for _, h := range hard {
+			if len(h) > 800 {
+				h = h[:800]
+			}
+			fmt.Printf("INCONCLUSIVE property=%s reason=%s\n", r.ID, strings.ReplaceAll(h, "\n", " | "))
+		}
+		os.Exit(2)
 	}
 	if nnt < minNonTrivial {
 		fmt.Printf("INCONCLUSIVE property=%s reason=observed-too-little (%d < %d non-trivial cases)\n", r.ID, nnt, minNonTrivial)
@@ -465,6 +476,7 @@ func (r *Run) RunShards(n int, dir string, extraEnv ...string) {
 	type res struct {
 		i   int
 		err error
+		pid int
 	}
 	done := make(chan res, n)
 	for i := 0; i < n; i++ {
@@ -477,7 +489,12 @@ func (r *Run) RunShards(n int, dir string, extraEnv ...string) {
 			cmd.Env = append(cmd.Env, extraEnv...)
 			cmd.Stdout = logf
 			cmd.Stderr = logf
-			done <- res{i, cmd.Run()}
+			err := cmd.Run()
+			pid := 0
+			if cmd.Process != nil {
+				pid = cmd.Process.Pid
+			}
+			done <- res{i, err, pid}
 		}(i)
 	}
 	for k := 0; k < n; k++ {
@@ -490,8 +507,31 @@ func (r *Run) RunShards(n int, dir string, extraEnv ...string) {
 			if len(tail) > 1500 {
 				tail = tail[len(tail)-1500:]
 			}
-			r.Inconclusive(fmt.Sprintf("shard %d died without result (%v): %s", d.i, d.err, tail))
 			r.Count("shards_died", 1)
+			// a worker that crashed inside the system under test is a finding, not a harness problem:
+			// look for the runtime's crash trace in the worker's own stderr file
+			trace := tail
+			// (a worker's scratch directory is <root>/.scratch/<ID>.<its pid>)
+			wdir := filepath.Join(Root(), ".scratch", fmt.Sprintf("%s.%d", r.ID, d.pid))
+			ms, _ := filepath.Glob(filepath.Join(wdir, fmt.Sprintf("*.shard%d", d.i)))
+			ms2, _ := filepath.Glob(filepath.Join(dir, fmt.Sprintf("*.shard%d", d.i)))
+			if ms = append(ms, ms2...); len(ms) > 0 {
+				for _, m := range ms {
+					if sb, err := os.ReadFile(m); err == nil {
+						trace += "\n" + string(sb)
+					}
+				}
+			}
+			if d.pid != 0 && os.Getenv("VERIF_KEEP_SCRATCH") == "" {
+				_ = os.RemoveAll(wdir)
+			}
+			if kind, frame, excerpt := crashInRepository(trace); kind != "" {
+				r.Violation("process-crash."+kind+"."+frame, fmt.Sprintf("worker process %d died inside the system under test (%s in %s): %s", d.i, kind, frame, excerpt), &Replay{Case: map[string]any{"shard": d.i, "exit": fmt.Sprint(d.err)}, Files: map[string][]byte{"crash.txt": []byte(trace)}})
+				continue
+			}
+			r.mu.Lock()
+			r.hardInconclusive = append(r.hardInconclusive, fmt.Sprintf("worker process %d died without result (%v) and no crash trace through the repository was found: %s", d.i, d.err, tail))
+			r.mu.Unlock()
 			continue
 		}
 		var p partial
@@ -501,6 +541,48 @@ func (r *Run) RunShards(n int, dir string, extraEnv ...string) {
 		}
 		r.merge(&p)
 	}
+}
+
+// crashInRepository looks for a Go runtime crash trace ("panic:" / "fatal error:") whose stack
+// passes through the repository's packages. It returns the kind, the innermost repository
+// function and an excerpt.
+func crashInRepository(trace string) (kind, frame, excerpt string) {
+	const mod = "github.com/gr33nbl00d/caddy-revocation-validator"
+	i := strings.Index(trace, "\npanic: ")
+	kind = "panic"
+	if j := strings.Index(trace, "\nfatal error: "); j >= 0 && (i < 0 || j < i) {
+		i, kind = j, "fatal-error"
+	}
+	if strings.HasPrefix(trace, "panic: ") {
+		i, kind = 0, "panic"
+	}
+	if i < 0 {
+		return "", "", ""
+	}
+	rest := trace[i:]
+	// the first goroutine block after the message is the crashing one
+	blk := rest
+	if g := strings.Index(rest, "\ngoroutine "); g >= 0 {
+		blk = rest[g+1:]
+		if e := strings.Index(blk, "\n\n"); e >= 0 {
+			blk = blk[:e]
+		}
+	}
+	for _, line := range strings.Split(blk, "\n") {
+		line = strings.TrimSpace(line)
+		if strings.HasPrefix(line, mod) && !strings.Contains(line, "/verifhook.") {
+			f := strings.TrimPrefix(line, mod)
+			if p := strings.LastIndex(f, "("); p > 0 {
+				f = f[:p] // argument list
+			}
+			f = strings.Trim(strings.NewReplacer("/", ".", "*", "", "(", "", ")", "").Replace(f), ".")
+			if len(rest) > 1200 {
+				rest = rest[:1200]
+			}
+			return kind, f, strings.ReplaceAll(rest, "\n", " | ")
+		}
+	}
+	return "", "", ""
 }
 
 func (r *Run) merge(p *partial) {
